@@ -129,19 +129,28 @@ def _first_bad_query(rec):
 def _run_harness(ctx, args, out):
     r = vlib.run_harness("vbih", [str(a) for a in args], timeout=1500, check=False)
     if r.returncode != 0:
-        # a crash / abort of the code under test is an observed event (Abort record rejects)
-        last = ""
+        # a crash / abort / hang of the code under test is an observed event: the trace ends with an
+        # Abort record, which no spec action explains (a truncated last line is dropped first)
         try:
-            with open(out) as fh:
-                for last in fh:
-                    pass
+            with open(out, "rb") as fh:
+                data = fh.read()
         except OSError:
-            pass
-        if '"e":"Abort"' not in last:
-            with open(out, "a") as fh:
-                fh.write(json.dumps({"e": "Abort", "what": "vbih exit code %d" % r.returncode,
-                                     "stderr": (r.stderr or "")[-300:]}) + "\n")
+            data = b""
+        if data and not data.endswith(b"\n"):
+            data = data[:data.rfind(b"\n") + 1]
+        if b'"e":"Abort"' not in data[-1000:]:
+            data += (json.dumps({"e": "Abort", "what": "vbih exit code %d" % r.returncode,
+                                 "stderr": (r.stderr or "")[-300:]}, separators=(",", ":")) + "\n").encode()
+        with open(out, "wb") as fh:
+            fh.write(data)
     return out
+
+
+def _aborted(path):
+    with open(path, "rb") as fh:
+        fh.seek(0, 2)
+        fh.seek(max(0, fh.tell() - 1500))
+        return b'"e":"Abort"' in fh.read()
 
 
 def run(ctx):
@@ -222,7 +231,7 @@ def run(ctx):
             want = [json.loads(c)["boxes"] for c in part]
             with open(out) as fh:
                 got = [json.loads(l)["in"] for l in fh if '"e":"Build"' in l]
-            if got != want and '"e":"Abort"' not in open(out).read()[-600:]:
+            if got != want and not _aborted(out):
                 raise vlib.Broken("replay %s.%d: the harness did not echo the generated configurations" % (name, si))
         if unit:
             out = ctx.path("%s.unit.ndjson" % name)
